@@ -194,6 +194,11 @@ def run(chk: Check):
         use_folder = rng.random() < 0.5 and cfg["sched"] == "rr"
         if use_folder:
             changed.append("folder")
+            if len(cfg["lineup"]) >= 3 and len({nm for nm, *_ in cfg["lineup"][1:]}) >= 2 and rng.random() < 0.7:
+                # ... and the folder is not empty: it holds the checkpoint of an earlier calibration with the same sampler classes in another order (and another seed)
+                other["leftover"] = dict(cfg, lineup=[cfg["lineup"][0]] + list(reversed(cfg["lineup"][1:])), seed=cfg["seed"] + 1, batches=1)
+                other["leftover"].pop("leftover", None); other["leftover"].pop("model", None)      # (the earlier calibration used a well-behaved model)
+                changed.append("folder_holds_another_calibration_of_the_same_classes")
         if rng.random() < 0.7 or cfg["sched"] == "rl":
             other["lineup"] = [(nm, bs, rng.randrange(10 ** 4)) for (nm, bs, _) in cfg["lineup"]]; changed.append("ctor_seeds")
             other["agent_ctor_seed"] = rng.randrange(100)
